@@ -760,6 +760,130 @@ def r_convex(ctx, db, est, scen, e_fields, weighted=False, axis_params=(0,), lab
     return n_ob
 
 
+# ---------------------------------------------------------------------------------------------
+# R-UNDERFLOW: the range clause of C17 has no absolute slack (its tolerance C*n*2^-53*max|x| scales
+# with the data, and the domain contains denormals), so the new mean may contain at most ONE operation
+# whose result can be an inexactly rounded subnormal, in a position where rounding is monotone.
+#
+# Standard model with gradual underflow: fl(a op b) = (a op b)(1+d) + e.  e = 0 for + and - (a sum of
+# floats that is subnormal is exact) and for a product with an integer-valued count (the result is not
+# smaller than the operand, so it is exact whenever it is subnormal); a product with any other factor
+# and a quotient can be a subnormal rounded by up to half a unit.  One such operation is harmless at the
+# root (the exact value lies between representable observations, rounding is monotone) and as the
+# increment added to a stored mean (fl(c*delta) stays between 0 and delta for c in [0,1], R-CONVEX).
+# Two or more are not: (1/2)*3u + (1/2)*3u = 2u + 2u = 4u for constant data 3u (u = 2^-1074).
+
+
+def _int_valued(n):
+    if not isinstance(n, tuple):
+        return False
+    if n[0] == "i2f":
+        return True
+    if n[0] == "lit":
+        try:
+            v = F.litval(n)
+            return float(v) == int(v) and abs(v) >= 1
+        except Exception:
+            return False
+    if n[0] in ("add",) and _int_valued(n[1]) and _int_valued(n[2]):
+        return True
+    if n[0] == "mul" and _int_valued(n[1]) and _int_valued(n[2]):
+        return True
+    return False
+
+
+def underflow_sources(v, is_data):
+    """nodes of `v` (a DAG: each node once) whose rounded result can be an inexact subnormal of data dimension"""
+    has = {}
+
+    def data(n):
+        if not isinstance(n, tuple):
+            return False
+        k = id(n)
+        if k not in has:
+            if n[0] == "atom":
+                has[k] = is_data(n)
+            elif n[0] in ("lit", "i2f", "opq"):
+                has[k] = False
+            elif n[0] == "fn":
+                has[k] = any(data(a) for a in n[2:])
+            else:
+                has[k] = any(data(a) for a in n[1:])
+        return has[k]
+    out, seen = [], set()
+
+    def walk(n):
+        if not isinstance(n, tuple) or id(n) in seen or not data(n):
+            return
+        seen.add(id(n))
+        k = n[0]
+        if k == "mul":
+            a, b = n[1], n[2]
+            if not ((_int_valued(a) and not data(a)) or (_int_valued(b) and not data(b))):
+                out.append(n)
+            walk(a), walk(b)
+        elif k == "div":
+            out.append(n)
+            walk(n[1]), walk(n[2])
+        elif k == "fn":
+            if n[1] not in ("sorted", "min", "max", "abs", "select", "lossy_f32", "copysign"):
+                out.append(n)
+            for a in n[2:]:
+                walk(a)
+        elif k in ("add", "sub", "neg"):
+            for a in n[1:]:
+                walk(a)
+    walk(v)
+    return out
+
+
+def r_underflow(ctx, db, est, scen, e_fields, axis_params=(0,), label="X"):
+    e_fields = set(e_fields)
+    n_ob = 0
+    for kind in ("add", "merge"):
+        for lab, paths in scen[kind]:
+            fn = est.add if kind == "add" else est.merge
+            for pth in paths:
+                if pth.status != "return":
+                    continue
+                init, fin = pth.ret[0], pth.ret[1]
+                e_atoms = set()
+                if kind == "add":
+                    for i in axis_params:
+                        if i < len(pth.ret[2]) and pth.ret[2][i][0] == "atom":
+                            e_atoms.add(pth.ret[2][i])
+                for leaf, v in sorted(fin.items()):
+                    if ("field:" + leaf) not in e_fields or not is_float(v) or v == init.get(leaf):
+                        continue
+                    srcs = underflow_sources(v, lambda a: a in e_atoms or field_of(a[1]) in e_fields)
+
+                    def strip(x):
+                        while isinstance(x, tuple) and x[0] == "neg":
+                            x = x[1]
+                        return x
+                    key = "%s:%s:%s" % (kind, leaf, label)
+                    n_ob += 1
+                    if len(srcs) >= 2:
+                        ctx.ob("R-UNDERFLOW", key, fn, R.fn_site(db, fn), False,
+                               "%s (%s): new `%s` contains %d separately rounded products/quotients of data-sized values by non-integers "
+                               "(%s): each can be a subnormal rounded by half a unit, and the errors add up while the range clause has no "
+                               "absolute slack — constant subnormal data (3 * 2^-1074 with equal shares) is not reproduced, the mean leaves [min, max]"
+                               % (kind, lab, leaf, len(srcs), "; ".join(F.show(x)[:70] for x in srcs[:3])), sample={"sources": len(srcs)})
+                    elif not srcs:
+                        ctx.ob("R-UNDERFLOW", key, fn, R.fn_site(db, fn), True,
+                               "%s (%s): new `%s` contains no operation that can round a subnormal" % (kind, lab, leaf))
+                    else:
+                        s0 = srcs[0]
+                        root = strip(v)
+                        ok = root is s0 or root == s0 or (root[0] in ("add", "sub") and any(strip(o) == s0 for o in root[1:]))
+                        ctx.ob("R-UNDERFLOW", key, fn, R.fn_site(db, fn), ok,
+                               ("%s (%s): new `%s` has a single subnormal-rounding operation, %s" % (
+                                   kind, lab, leaf, "at the root" if (root is s0 or root == s0) else "as the increment added to the stored mean"))
+                               if ok else "%s (%s): new `%s` rounds a subnormal once (%s) but not at the root nor as a direct increment: undecided shape"
+                               % (kind, lab, leaf, F.show(s0)[:80]), inc=not ok)
+    return n_ob
+
+
 def collect_atoms(n, acc=None):
     if acc is None:
         acc = set()
